@@ -51,6 +51,9 @@ CLAIMED = {
  "C15": ("model_checking", "exhaustive enumeration of all Context call histories up to depth 4 (5) on the real Context/Canvas against an independent matrix-and-style stack machine",
          "All histories over 52 Context calls (Push/Pop, 4 coordinate systems, setters, dashes, view compositions, SetView/SetCoordView, z-index, DrawPath/DrawText/DrawImage, Fill/Stroke) are run on a recording renderer and on a Canvas; the recorded renderer calls (count, order by z-index then draw order, path data, style incl. dash values at draw time, matrices to 1e-12, text/image un-flipping) must equal what an independent model written from the doc comments predicts; Context state after the history and after popping everything; Canvas replay, RenderViewTo, Transform, Clip and Fit(margin) are checked on every history.",
          "trusted: the reference machine (own 2x3 algebra, doc comments); a recorded dash pattern passes if it is equivalent under either reading of the dash unit (millimetres per the doc comment, stroke widths per the renderers), the difference is tallied", "DESIGN.md §4 C15"),
+ "C13": ("model_checking", "exhaustive enumeration of document programs (call histories on the real PDF writer) validated by an independent PDF reader",
+         "Every history of up to 3 (4) calls over a 25-call alphabet (pages, 6 path styles incl. alpha and gradients, TrueType and CFF text incl. >95 glyphs, images, links, metadata with ASCII / escapes / Latin-1 / UTF-16 containing CR ( ) \\ bytes, language) x Compress x SubsetFonts is written by the real writer on a fresh instance and closed; an independent reader (tokenizer, xref, object resolution, filters, page tree, content-stream operator table and state machine, text strings) checks every clause of the statement on every document.",
+         "trusted: internal/pdfread (written from ISO 32000-1), compress/zlib, image/jpeg; documents longer than the depth bound and fonts other than the two bundled ones are outside the bound", "DESIGN.md §4 C13"),
 }
 CUSTOM_CMD = {"C20": ("scripts/check_c20.sh quick", "scripts/check_c20.sh thorough")}
 REASON_PENDING = "check not built yet in this session (planned in DESIGN.md §9); not claimed until it exists and is green"
